@@ -64,6 +64,11 @@ EXC_PARENTS = {
 }
 
 
+# classes a user failure may plausibly be an instance of when a handler names them (not the Stop*/exit signals)
+ORDINARY_EXC = ("TypeError", "ValueError", "KeyError", "IndexError", "LookupError", "AttributeError", "AssertionError",
+                "RuntimeError", "NotImplementedError")
+
+
 class ExcClass:
     """an exception class as a first-class value"""
     def __init__(self, name):
